@@ -95,7 +95,7 @@ def parse_template(text: str) -> List[Token]:
             index_start = fixed_token.position[1]
             lineno_offset = (  # `fixed_token.lineno` already includes the previous offset
                 fixed_token.lineno - 1  # -1 because lines are 1-indexed
-                + fixed_token.contents.count("\n")
+                + text.count("\n", broken_token_start, index_start)  # whole tag, incl. stripped whitespace
             )  # fmt: skip
         else:
             break
